@@ -156,3 +156,21 @@ MUTANTS += [
     M('C18', 'url-from-file-or', 'loader.py', 'if name and name[0] != "<" and name[-1] != ">":', 'if name and (name[0] != "<" or name[-1] != ">"):'),
     M('C18', 'urljoin-wrapper-slice', 'url.py', '        url = "file://" + url[5:]  # pragma: no cover\n    return url\n\n\ndef urldefrag', '        url = "file://" + url[6:]  # pragma: no cover\n    return url\n\n\ndef urldefrag'),
 ]
+
+MUTANTS += [
+    # ---------------- C10
+    M('C10', 'required-with-default-allowed', 'schema.py', '            if minOccurs:\n                self.error("required key cannot have a default value")\n', ''),
+    M('C10', 'key-star-allowed', 'schema.py', "        if any_name == '*':\n            self.error(element + \" may not specify '*' for name\")\n", ''),
+    M('C10', 'attribute-uniqueness-dropped', 'info.py', "        if info.attribute and info.attribute in self._attrmap:\n            raise ZConfig.SchemaError(\n                \"child attribute name %s already used\" % info.attribute)\n", ''),
+    M('C10', 'multisection-any-name', 'schema.py', '        if any_name not in ("*", "+"):\n            self.error("multisection must specify \'*\' or \'+\' for the name")\n', ''),
+    M('C10', 'unkeyed-default-for-wildcard', 'info.py', '        if self.name == "+" and key is None:\n            raise ZConfig.SchemaError(\n                "default values must be keyed for name=\'+\'")\n        elif', '        if'),
+    M('C10', 'required-any-non-no', 'schema.py', '            if v == "yes":\n                return True\n            elif v == "no":\n                return False\n            self.error("value for \'required\' must be \'yes\' or \'no\'")', '            if v == "no":\n                return False\n            return True'),
+    M('C10', 'extends-abstract-allowed', 'schema.py', '            if base.isabstract():\n                self.error("sectiontype cannot extend an abstract type")\n', ''),
+    M('C10', 'implements-concrete-allowed', 'schema.py', '            if not interface.isabstract():\n                self.error(\n                    "type specified by implements is not an abstracttype")\n', '            if not interface.isabstract():\n                return self._stack.append(sectinfo)\n'),
+    M('C10', 'stray-text-accepted', 'schema.py', '        elif data.strip():\n            self.error("unexpected non-blank character data: "\n                       + repr(data.strip()))', '        elif data.strip() and len(data.strip()) > 1:\n            self.error("unexpected non-blank character data: "\n                       + repr(data.strip()))'),
+    M('C10', 'type-redefinition-allowed', 'info.py', '        if n in self._types:\n            raise ZConfig.SchemaError("type name cannot be redefined: "\n                                      + repr(typeinfo.name))\n', ''),
+    M('C10', 'child-name-uniqueness-dropped', 'info.py', '        if key and key in self._keymap:\n            raise ZConfig.SchemaError(\n                "child name %s already used" % key)\n', ''),
+    M('C10', 'wildcard-without-attribute', 'schema.py', '            if not aname:\n                self.error(\n                    "container attribute must be specified and non-empty"\n                    " when using \'*\' or \'+\' for a section name")\n', ''),
+    M('C10', 'nesting-table-key-in-key', 'schema.py', '        "key": ["schema", "sectiontype"],', '        "key": ["schema", "sectiontype", "multikey"],'),
+    M('C10', 'default-collision-after-normalisation', 'info.py', '        if self.name == "+":\n            if key in self._default:\n                # not ideal', '        if self.name == "+":\n            if key in self._default and self._rawdefaults is None:\n                # not ideal'),
+]
